@@ -18,15 +18,16 @@ import (
 // C17 — concurrent use is free of data races and deadlocks.
 
 type c17World struct {
-	fresh   int
-	w       *world.World
-	a, b    *world.Peer
-	srv     api.FeatureLocalInterface
-	cli     api.FeatureLocalInterface
-	diag    api.EntityLocalInterface
-	pending []*api.Message
-	extra   *spine.EntityLocal
-	reqCtr  uint64 // counter of a request of the local client feature that peer A has not answered yet
+	fresh     int
+	discReply model.DatagramType // built during set-up (building it reads the writer of the connection)
+	w         *world.World
+	a, b      *world.Peer
+	srv       api.FeatureLocalInterface
+	cli       api.FeatureLocalInterface
+	diag      api.EntityLocalInterface
+	pending   []*api.Message
+	extra     *spine.EntityLocal
+	reqCtr    uint64 // counter of a request of the local client feature that peer A has not answered yet
 }
 
 //go:norace
@@ -56,6 +57,9 @@ func withVendorFeature(es world.EntSpec, tag string, n int) world.EntSpec {
 func newC17World() *c17World {
 	c := &c17World{w: stdWorld(false, "A", "B")}
 	c.fresh = c17NextFresh()
+	defer func() {
+		c.discReply = c.a.DiscoveryReply([]world.EntSpec{withVendorFeature(clientEntity([]uint{1}), "R", c.fresh), clientEntity([]uint{2})})
+	}()
 	c.a, c.b = c.w.Peers["A"], c.w.Peers["B"]
 	c.srv = c.w.L.FeatureByAddress(srvAddr("L1lc", true))
 	c.cli = c.w.L.FeatureByAddress(world.FAddr(world.LocalAddr, []uint{1}, lLCClient))
@@ -117,6 +121,10 @@ func c17Ops() []c17Op {
 				NodeManagementDetailedDiscoveryData: c.a.DiscoveryData([]world.EntSpec{withVendorFeature(clientEntity([]uint{1, 1}), "A", c.fresh)}, false, &st)}
 			c.a.Deliver(c.a.Datagram(c.a.NM(), world.LocalNM(), model.CmdClassifierTypeNotify, false, nil, cmd))
 		}},
+		{"A:discovery-reply", func(c *c17World) {
+			// a peer answers a detailed discovery read once more: device description and every entity are replaced
+			c.a.Deliver(c.discReply)
+		}},
 		{"A:entity-removed", func(c *c17World) {
 			st := model.NetworkManagementStateChangeTypeRemoved
 			cmd := model.CmdType{Function: util.Ptr(model.FunctionTypeNodeManagementDetailedDiscoveryData), Filter: []model.FilterType{*model.NewFilterTypePartial()},
@@ -142,7 +150,10 @@ func c17Ops() []c17Op {
 		}},
 		{"local:AddEntity+RemoveEntity", func(c *c17World) { c.w.L.AddEntity(c.extra); c.w.L.RemoveEntity(c.extra) }},
 		{"local:RequestRemoteData", func(c *c17World) {
-			_, _ = c.cli.RequestRemoteData(fnLimit, nil, nil, c.a.Dev.FeatureByAddress(cliAddr("A", "e1f4", true)))
+			// (while the peer's entities are being re-announced the feature may not be resolvable for a moment)
+			if rf := c.a.Dev.FeatureByAddress(cliAddr("A", "e1f4", true)); rf != nil {
+				_, _ = c.cli.RequestRemoteData(fnLimit, nil, nil, rf)
+			}
 		}},
 		{"local:SubscribeToRemote", func(c *c17World) { _, _ = c.cli.SubscribeToRemote(cliAddr("A", "e1f4", true)) }},
 		{"local:approve-pending-write", func(c *c17World) {
